@@ -2,7 +2,7 @@
 # usage: tools/run_all.sh [quick|thorough] [props...]; runs the checks one after the other against /repo
 tier="${1:-quick}"; shift
 props="$@"; [ -z "$props" ] && props="C01 C02 C03 C04 C05 C06 C07 C08 C09 C10 C11 C12 C13 C14 C15 C16 C17 C18 C19 C20"
-cd /verif
+cd "$(dirname "$0")/.."
 for p in $props; do
   s=$(date +%s)
   ./check $p --tier $tier > /tmp/runall_$p.log 2>&1; rc=$?
